@@ -25,17 +25,7 @@ func ruleDecorWidthAccounting(w *World, r *Report, pfx string) {
 		r.Unresolved("anchor", "bState.draw", "not found")
 		return
 	}
-	var clo *ssa.Function
-	var decorCall *ssa.Call
-	for _, c := range append([]*ssa.Function{draw}, draw.AnonFuncs...) {
-		for _, b := range c.Blocks {
-			for _, in := range b.Instrs {
-				if call, ok := in.(*ssa.Call); ok && call.Call.IsInvoke() && call.Call.Method.Name() == "Decor" {
-					clo, decorCall = c, call
-				}
-			}
-		}
-	}
+	clo, decorCall := w.drawDecorSite(draw)
 	if decorCall == nil {
 		r.Violated(rule, "decorator-writing loop", w.pos(draw.Pos()), "draw never calls Decor")
 		return
@@ -220,6 +210,20 @@ func ruleSpacers(w *World, r *Report, pfx string) {
 						okDrain = true
 					}
 				}
+			}
+		}
+	}
+	if !okDrain {
+		// unrolled: as many drains as spacers in one block
+		for _, b := range draw.Blocks {
+			c := 0
+			for _, in := range b.Instrs {
+				if call, ok := in.(*ssa.Call); ok && call.Call.StaticCallee() != nil && call.Call.StaticCallee().String() == "io.Copy" {
+					c++
+				}
+			}
+			if c == nSp && nSp > 0 {
+				okDrain = true
 			}
 		}
 	}
